@@ -45,3 +45,10 @@ Theorem C04_canonical_document : forall m, uvl_ok m = true ->
   exists d, cst_of_fm m = Ok d /\ uvl_read_cst d = Ok (annotate_fm (uvl_norm m)).
 Proof. exact uvl_roundtrip_cst. Qed.
 Print Assumptions C04_canonical_document.
+
+(* non-vacuity: a parser that rejects everything meets the premise of C04_syntax_error; the canonical
+   document premise is met by UvlFacts.ex_model *)
+Example C04_nonvacuous :
+  uvl_read (fun _ => None) "features"%string = Err FlamaException /\ uvl_ok ex_model = true.
+Proof. split; [reflexivity|exact ex_model_ok]. Qed.
+Print Assumptions C04_nonvacuous.
